@@ -218,6 +218,21 @@ def u_ctl():
     add("ctl-subtuple", ["a: Qmatrix[bool, 2, 2]"], "bool", ["c = False", "for x in a:", "    for y in x:", "        c = c ^ y", "return c"])
     add("ctl-subtuple", ["a: Qmatrix[Qint[2], 2, 2]"], Q2, ["c = 0", "for x in a:", "    for y in x:", "        c += y", "return c"])
     add("ctl-subtuple", ["a: Qmatrix[bool, 2, 2]", "i: bool"], "bool", ["r = a[1] if i else a[0]", "return r[0]"])
+    # rows of non-square nested containers (their length is not the container's)
+    add("ctl-nonsquare", ["a: Qmatrix[bool, 2, 3]"], "bool", ["return all(a[0])"])
+    add("ctl-nonsquare", ["a: Qmatrix[bool, 3, 2]"], "bool", ["return all(a[2]) or any(a[0])"])
+    add("ctl-nonsquare", ["a: Qmatrix[Qint[2], 2, 3]"], Q4, ["return sum(a[1])"])
+    add("ctl-nonsquare", ["a: Qmatrix[bool, 2, 3]"], Q2, ["return len(a[0])"])
+    add("ctl-nonsquare", ["a: Tuple[Tuple[bool, bool, bool], Tuple[bool, bool]]"], "bool", ["return any(a[0]) and all(a[1])"])
+    add("ctl-nonsquare", ["a: Qmatrix[bool, 2, 3]"], "bool", ["c = False", "for x in a[1]:", "    c = c ^ x", "return c"])
+    add("ctl-nonsquare", ["a: Qmatrix[bool, 2, 3]", "i: bool", "j: %s" % Q2], "bool", ["return a[i][j]"])
+    add("ctl-nonsquare", ["a: Qmatrix[bool, 3, 2]", "i: %s" % Q2, "j: bool"], "bool", ["return a[i][j]"])
+    add("ctl-nonsquare", ["a: Qmatrix[Qint[2], 2, 3]"], Q2, ["return max(a[0])"])
+    add("ctl-nonsquare", ["a: Qlist[Qint[2], 2]", "x: %s" % Q2], Q4, ["b = a", "b = [x, x, x]", "return sum(b)"])
+    add("ctl-nonsquare", ["a: Qlist[bool, 3]", "x: bool"], Q2, ["b = a", "b = [x, x]", "return len(b)"])
+    add("ctl-constmul", ["a: bool"], Q4, ["return Qint4(2) * 3"])
+    add("ctl-constmul", ["a: %s" % Q2], Q4, ["return Qint4(3) * Qint4(2) + a"])
+    add("ctl-constmul", ["a: %s" % Q2], "Qint[6]", ["c = 6", "return (c * 5) + a"])
     # a name that held a constant is re-bound to a runtime value and then used as an index
     L4 = "L = [3, 2, 1, 0]"
     add("ctl-constidx", ["a: %s" % Q2], Q2, [L4, "i = 1", "return L[i]"])
